@@ -15,3 +15,6 @@ func PoolHit(name string) {}
 
 // NoLoopFilter is always false without the verif build tag.
 func NoLoopFilter() bool { return false }
+
+// Range is a no-op without the verif build tag.
+func Range(site string, base, end, w, nw, lo, hi int) {}
